@@ -31,3 +31,7 @@ def run(ctx):
     S.r03_8_whole_node(ctx)
     S.r01_2_gate(ctx)
     S.r17_4_no_silent_reject(ctx)
+    from . import round3 as R3
+    R3.r03_10_registered_is_given(ctx, 'R03.10')
+    from . import helpers_rules as H
+    H.r16_1_purity(ctx, 'R03.9', roots=['yatiml.recognizer:Recognizer.recognize'], what='recognition (every candidate must see the same node)')
